@@ -675,15 +675,15 @@ impl Model {
                 self.set_tombstone(ctx.key(*key));
                 Ok(())
             }
-            Op::ForeignTombstone { bucket_of, .. } => {
+            Op::ForeignTombstone { bucket_of, .. } | Op::ForeignRecord { bucket_of, .. } => {
                 let k = ctx.key(*bucket_of).to_string();
-                self.index.entry(k).or_default().bucket_exists = true;
-                self.index_dir = true;
-                self.list_unjudged = true;
-                Ok(())
-            }
-            Op::ForeignRecord { bucket_of, .. } => {
-                let k = ctx.key(*bucket_of).to_string();
+                // the appended record begins with a line feed: when harness-side damage had left
+                // the bucket ending in `...}\r`, that earlier line is CRLF-terminated — and
+                // valid — from now on. The append is the harness's own (reference writer), so
+                // the bucket is read again with the reference reader.
+                if !self.pure && self.damaged_buckets > 0 {
+                    self.adopt_bucket(ctx, &k);
+                }
                 self.index.entry(k).or_default().bucket_exists = true;
                 self.index_dir = true;
                 self.list_unjudged = true;
